@@ -14,6 +14,12 @@ def leaf_t(t: "NodeType") -> bool:
     return t.is_leaf
 
 
+@abstract
+def atom_t(t: "NodeType") -> bool:
+    """the node type is a leaf or declared `atom` (an atom may still have content)"""
+    return t.is_atom
+
+
 def nsize(n: "Node") -> int:
     """token size of a node"""
     if n.type.is_text:
